@@ -11,6 +11,7 @@ enumerated product value source x store path x reclamation event x observation, 
 import glob
 import os
 import re
+import subprocess
 
 from common import Check, DRIVER, LEAN, VERIF, MachineryError, sh
 
@@ -182,7 +183,13 @@ def classify(ck, label, reqs, res):
 def stream(ck, label, reqs, profile="debug"):
     if not reqs:
         return None
-    res = ck.corr(FAMILY, reqs, profile=profile, label=label if profile == "debug" else f"{label}-{profile}")
+    name = label if profile == "debug" else f"{label}-{profile}"
+    try:
+        res = ck.corr(FAMILY, reqs, profile=profile, label=name, timeout=1500)
+    except subprocess.TimeoutExpired:
+        # a program that does not terminate under reclamation (only a corrupted run does that)
+        ck.broken.append({"kind": "impl-run-hung", "family": FAMILY, "stream": name, "requests": len(reqs)})
+        return None
     if profile == "debug":
         classify(ck, label, reqs, res)
     return res
@@ -263,13 +270,23 @@ def run_batch(ck, sources, profile="debug"):
     if not sources:
         return []
     inp = ("\n".join(d_line(s) for s in sources) + "\n").encode()
-    p = sh([ck.nvh(profile), FAMILY, "run"], inp=inp, timeout=1800)
     out = [None] * len(sources)
+    try:
+        p = sh([ck.nvh(profile), FAMILY, "run"], inp=inp, timeout=600)
+    except subprocess.TimeoutExpired:
+        return out
     for l in p.stderr.decode(errors="replace").splitlines():
         m = FAIL.match(l)
         if m and 0 < int(m.group(1)) <= len(sources):
             out[int(m.group(1)) - 1] = m.group(2)
     return out
+
+
+def genuine(msg):
+    """The run without reclamation ended normally (ok / runtime error): the failure is a difference between
+    the two runs and not, say, a program that exhausts memory either way."""
+    m = re.search(r"without: (\S*)", msg)
+    return bool(m) and (m.group(1) == "ok" or m.group(1).startswith("rt:"))
 
 
 def outcome_of(msg):
@@ -304,7 +321,7 @@ def search(ck):
                             no_input_found=True)
         return
     # minimise a few of the smallest failing programs: different programs may show different defects
-    found.sort(key=lambda f: len(f[0]))
+    found.sort(key=lambda f: (not genuine(f[1]), len(f[0])))
     reported = set()
     for req, what in found[:40]:
         if len(reported) >= 3:
@@ -406,6 +423,9 @@ def render(forest):
     return "\n".join(out)
 
 
+COUNTER_STEP = re.compile(r"^(\w+) get \1 add 1$")
+
+
 def variants(forest):
     """Every program obtained by one reduction step: delete a node, delete an else branch, replace a
     block by its body (loop / if / block wrappers), replace an if by its else body."""
@@ -413,7 +433,9 @@ def variants(forest):
 
     def walk(nodes, rebuild):
         for i, n in enumerate(nodes):
-            out.append(rebuild(nodes[:i] + nodes[i + 1:]))
+            # a loop keeps its counter increment: without it the candidate does not terminate
+            if not (n.kids is None and COUNTER_STEP.match(n.line)):
+                out.append(rebuild(nodes[:i] + nodes[i + 1:]))
             if n.kids is not None:
                 if not n.line.startswith("do "):
                     out.append(rebuild(nodes[:i] + n.kids + nodes[i + 1:]))
@@ -441,7 +463,8 @@ def shrink(ck, src, what):
         forest = parse_tree(best)
         if forest is None:
             lines = best.split("\n")
-            cands = ["\n".join(lines[:i] + lines[i + 1:]) for i in range(len(lines))]
+            cands = ["\n".join(lines[:i] + lines[i + 1:]) for i in range(len(lines))
+                     if not COUNTER_STEP.match(lines[i].strip())]
         else:
             cands = [render(v) for v in variants(forest)]
         cands = [c for c in dict.fromkeys(cands) if c.strip() and c != best]
@@ -450,6 +473,8 @@ def shrink(ck, src, what):
         verdicts = run_batch(ck, cands)
         ck.evaluations += len(cands)
         failing = [(c, v) for c, v in zip(cands, verdicts) if v]
+        if genuine(best_what):
+            failing = [f for f in failing if genuine(f[1])]
         if not failing:
             break
         same = [f for f in failing if outcome_of(f[1]) == outcome_of(best_what)]
